@@ -27,7 +27,8 @@ CLAIMS = {
             E1 + " (the solver enumerates the finite cut/truncation grammar; h11/h2 run natively)", "§3 C02"),
     "C03": ("Bounded symbolic verification: method x target form x header list x body kind x first-use/reuse; the bytes on the wire are decoded by an "
             "independent strict HTTP/1.1 parser / the h2 library in server role and compared; illegal heads give LocalProtocolError with nothing "
-            "written. Plus AST->SMT kernels: Host/port decision for every host and integer port, HTTP/2 DATA chunking arithmetic.",
+            "written; a follow-up request with the caller's same header list; the re-sent request after GOAWAY carries head and body; on a "
+            "multiplexed connection what the other callers write after one caller was cancelled still decodes at the peer. Plus AST->SMT kernels: Host/port decision for every host and integer port, HTTP/2 DATA chunking arithmetic.",
             E1 + "; E2 kernels: AST->SMT, z3 unsat", "§3 C03"),
     "C04": ("Bounded symbolic verification: one inductive pool step from an arbitrary symbolic state with unbounded max_connections/max_keepalive "
             "(len<=N afterwards, nothing dropped unclosed, created connections pooled) plus concurrent ledger scenarios: open sockets apart from "
@@ -46,11 +47,12 @@ CLAIMS = {
             E1 + " (inductive step + symbolic schedules over the model runtime)", "§3 C07"),
     "C08": ("REDUCED CLAIM (line-level thread pre-emption is NOT covered): (a) lock discipline on every explored sync path (pool lists only "
             "mutated by the pool with its lock held; connection state only changed under its state lock), (b) the four threading adapters, "
-            "(c) the pool step as the sync module runs it, (d) interleavings at lock/event/network operations through the async twin, carried "
+            "no network operation while the pool lock is held; Event.set() only after the waiter's connection is stored; the h2 state only touched "
+            "under the connection's read/write lock, (c) the pool step as the sync module runs it, (d) interleavings at lock/event/network operations through the async twin, carried "
             "over to the sync code by C18.",
             E1, "§3 C08, §4"),
     "C09": ("Inductive pool step clauses for reuse / keep-alive limit / expiry with unbounded N, K; expiry arithmetic on the real connections with an "
-            "unbounded symbolic clock and expiry for 6 connection types; 3-4 step histories against a reference model of idle/expired sockets.",
+            "unbounded symbolic clock and expiry for 6 connection types (incl. a response held across the old deadline for an unbounded time); 3-4 step histories against a reference model of idle/expired sockets.",
             E1 + " (unbounded integers for limits and time)", "§3 C09"),
     "C10": ("Inductive pool step (assignment only to a connection whose origin matches), Origin equality kernel (symbolic bytes, unbounded "
             "ports) and a ledger scenario over scheme x port x proxy x http1/http2 x ALPN x SNI with two near-miss origins.",
@@ -64,33 +66,41 @@ CLAIMS = {
             E1, "§3 C12"),
     "C13": ("Bounded symbolic verification: uploads for windows {1,5,65535} x frame sizes x lengths {0,1,w-1,w,w+1,2w+3} x 5 WINDOW_UPDATE "
             "schedules (incl. early responses), two uploads sharing the connection window, credit return per DATA event observed at the h2 "
-            "boundary, one long download; plus the AST->SMT kernel of the chunking loop for arbitrary window readings.",
+            "boundary, long downloads (one stream; a lagging consumer next to a second stream), SETTINGS changes while the client waits for credit; "
+            "plus the AST->SMT kernel of the chunking loop for every integer window reading (negative ones included) and stale-reading detection.",
             E1 + "; E2 kernel: AST->SMT, z3 unsat", "§3 C13"),
     "C14": ("Bounded symbolic verification from the servers' ledgers: HTTP/1.1 with a fault at any operation (incl. partial writes), retries, reuse; "
             "HTTP/2 with GOAWAY at any server-side event and any last_stream_id, 1-2 concurrent requests: a request head is seen at most once "
-            "unless GOAWAY named a lower last-stream-id; no stream opened after GOAWAY was read.",
+            "unless GOAWAY named a lower last-stream-id; no stream opened after GOAWAY was read; RST_STREAM (5 error codes) on a written request is never re-sent.",
             E1, "§3 C14"),
     "C15": ("The solver enumerates a finite mutation grammar (position x 13 operations over valid HTTP/1.1, HTTP/2, CONNECT and SOCKS5 "
             "conversations, and every reply of length <= 3 over a 6-symbol alphabet) plus injected backend faults and concurrent cancellations: "
-            "only documented exception classes matching the cause reach the caller; no hang once the input ended.",
+            "only documented exception classes matching the cause reach the caller; no hang once the input ended. Also: invalid frames hitting a "
+            "multiplexed connection (what the sibling streams are told), hand-built invalid requests, and the exception maps of the three real back "
+            "ends (anyio, trio, sync) executed over model runtime objects with a symbolic time-out.",
             E1 + " (finite grammar, parsers native)", "§3 C15"),
     "C16": ("Bounded symbolic verification: the four time-outs as unbounded symbolic integers (pairwise different, optionally absent) traced to "
             "every connect/start_tls/read/write of 8 connection types; PoolTimeout instant with symbolic T and H on a virtual clock "
-            "(asyncio and trio adapters, sync).",
+            "(asyncio and trio adapters, sync); overlapping HTTP/2 requests with different time-outs; the real back ends issue each operation with "
+            "exactly its limit and time out at exactly t0+T (model runtime).",
             E1 + " (unbounded symbolic integers)", "§3 C16"),
     "C17": ("UNBOUNDED kernel obligation by AST->SMT (one read() step from an arbitrary buffered state for every byte sequence and max_bytes) "
-            "plus bounded scenarios on the real HTTP11Connection: every cut around the head end, sized reads, 101 and CONNECT-2xx.",
+            "plus bounded scenarios on the real HTTP11Connection: every cut around the head end, sized reads, 101 and CONNECT with four 2xx statuses, "
+            "empty body drained first, switching on a re-used connection held past the old keep-alive deadline, tunnel-proxy CONNECT replies with "
+            "Content-Length / Transfer-Encoding.",
             "E2: AST->SMT (z3 sequences), unsat; " + E1, "§3 C17"),
     "C18": ("Differential symbolic execution of both variants in one product harness (fault injection over 8 connection types, keep-alive "
-            "histories, pool time-outs, response segmentation): equal ledgers, outcomes and pool/connection states; plus the syntactic pairing of "
+            "histories, pool time-outs, response segmentation, hand-built requests, the hand-written mock back-end pair): equal ledgers (incl. whether "
+            "an operation was issued under the pool lock), outcomes and pool/connection states; plus the syntactic pairing of "
             "httpcore/_sync with a fresh translation of httpcore/_async at full length (precondition of the product harness).",
             E1 + " (product harness); pairing is a syntactic comparison", "§3 C18"),
     "C19": ("The solver enumerates a URL grammar (5 schemes x userinfo x 5 host forms x 4 port forms x 7 paths x query x fragment, str and "
             "bytes) against an RFC 3986 appendix-B reference; origin laws with unbounded symbolic ports; type gate over a boundary alphabet; "
             "AST->SMT kernel of the Host/port decision for every host and integer port.",
             E1 + "; E2 kernel: AST->SMT, z3 unsat", "§3 C19"),
-    "C20": ("Bounded symbolic verification: retries N unbounded, every sequence of up to 3 (quick) / 5 (thorough) scripted attempt outcomes over 7 "
-            "kinds at TCP/UDS and TLS stage; attempts, back-off sequence, raised error, no retry after establishment; AST->SMT closed form of "
+    "C20": ("Bounded symbolic verification: retries N unbounded, every sequence of up to 3 (quick) / 4-6 (thorough) scripted attempt outcomes over 13 "
+            "kinds (incl. raw OSError/TimeoutError/ssl.SSLError) at TCP/UDS and TLS stage, trace extension, unbounded connect time-out, HTTP/2-only pool "
+            "against a non-h2 server; attempts, back-off sequence, raised error, no retry after establishment; AST->SMT closed form of "
             "exponential_backoff for every real factor.",
             E1 + " (unbounded retry count); E2 kernel", "§3 C20"),
 }
